@@ -41,7 +41,7 @@ def literal(content, q):
 
 def build(cases):
     """cases: list of (k, content, quote).  One project holding every position for every literal."""
-    spec, comps, procs = [], [], []
+    spec, comps, procs, nlvars = [], [], [], []
     for k, content, q in cases:
         lit = literal(content, q)
         spec.append(f"  character(len=*), parameter :: pa{k} = {lit}")
@@ -51,14 +51,20 @@ def build(cases):
         spec.append(f"  character(len=*), parameter :: pe{k} = {lit} // 'z'")
         comps.append(f"    character(len=40) :: co{k} = {lit}")
         procs.append(f"  subroutine bn{k}() bind(c, name={lit})\n  end subroutine bn{k}")
+        nlvars.append(f"    character(len=40) :: nv{k} = {lit}")
     src = ("module m\n  implicit none\n" + "\n".join(spec) + "\n"
            "  integer, parameter :: rel1 = merge(2, 3, 1 < 2)\n"
            "  integer, dimension(merge(2, 3, 1 < 2)) :: rel2\n"
            "  real :: rel3(merge(2, 3, 1 < 2))\n"
            "  character(len=count([1 < 2])) :: rel4\n"
+           "  character :: banner*(12)\n"
            "  integer(kind=merge(4, 8, 1 < 2)) :: rel5\n"
            "  type :: holder\n" + "\n".join(comps) + "\n  end type holder\n"
            "contains\n" + "\n".join(procs) + "\n"
+           # a namelist of a procedure: its page and the panel on the procedure's page show the variables with their defaults
+           "  subroutine nlproc()\n" + "\n".join(nlvars) + "\n    namelist /grp/ " + ", ".join(f"nv{k}" for k, _, _ in cases) + "\n  end subroutine nlproc\n"
+           # a character length written after the name, in parentheses
+           "  function starlen(line, tag) result(res)\n    character line*(*)\n    character :: tag*(3)\n    character res*(8)\n    res = line // tag\n  end function starlen\n"
            "  function fr(a) result(r)\n    integer, intent(in) :: a(merge(2, 3, 1 < 2))\n    integer :: r(merge(2, 3, 1 < 2))\n    r = a\n  end function fr\n"
            "end module m\n")
     return src
@@ -147,6 +153,63 @@ def evaluate(job):
             stray = [t.name for t in soup.find_all(True) if t.name in ("b",) and t.get_text() == ""]
             if soup.find_all("b") and "<b>" in content:
                 out.append({"k": k, "bad": f"bind name: literal {lit!r} was interpreted as mark-up on {rel}"})
+        # the namelist page and the namelist panel of the procedure show the same defaults, as inert text
+        nproc = subs.get("nlproc")
+        nl = nproc.namelists[0] if nproc is not None and getattr(nproc, "namelists", None) else None
+        if nl is None:
+            out.append({"k": None, "bad": "namelist grp of nlproc not reported"})
+        else:
+            for rel in (nl.get_url(), nproc.get_url()):
+                path = os.path.join(d, "doc", rel)
+                soup = BeautifulSoup(open(path, "rb").read(), "html.parser") if os.path.exists(path) else None
+                if soup is None:
+                    out.append({"k": None, "bad": f"page {rel} not written"})
+                    continue
+                rows = {}
+                for tr in soup.find_all("tr"):
+                    mm = re.search(r"\bnv(\d+)\b", tr.get_text(" "))
+                    if mm and tr.find("td") is not None:
+                        rows.setdefault(int(mm.group(1)), tr)
+                base_cells = None
+                for k, content, q in cases:
+                    lit = literal(content, q)
+                    tr = rows.get(k)
+                    if tr is None:
+                        if rel == nl.get_url():
+                            out.append({"k": k, "bad": f"namelist page {rel}: no row for nv{k}"})
+                        continue
+                    text = norm(tr.get_text(" "))
+                    if norm(lit) not in text and squash(lit) not in squash(text):
+                        out.append({"k": k, "bad": f"namelist variable default: page {rel} shows {text!r}, source literal {lit!r}"})
+                    cells = tr.find_all("td")
+                    base_cells = base_cells or len(cells)
+                    if len(cells) != base_cells:
+                        out.append({"k": k, "bad": f"namelist variable default: row of nv{k} on {rel} has {len(cells)} cells, other rows {base_cells}: {lit!r} changed the page structure"})
+                    inner = [t.name for c in cells for t in c.find_all(True) if t.name not in ("strong", "span", "a", "p", "small", "em", "code")]
+                    if inner:
+                        out.append({"k": k, "bad": f"namelist variable default: literal {lit!r} produced elements {inner[:4]} on {rel}"})
+        # a character length after the name, in parentheses: name, type and length as declared
+        fn = {f.name: f for f in m.functions}.get("starlen")
+        if fn is None:
+            out.append({"k": None, "bad": "function starlen not reported"})
+        else:
+            args = {a.name: a for a in fn.args if not isinstance(a, str)}
+            for nm, star in (("line", "*(*)"), ("tag", "*(3)")):
+                a = args.get(nm)
+                if a is None or a.vartype != "character" or squash(star) not in squash((a.dimension or "") + str(a.strlen or "")):
+                    out.append({"k": None, "tag": "starlen", "bad": f"dummy argument {nm} declared character {nm}{star}: FORD reports "
+                                f"{[(x.name, x.vartype, getattr(x, 'dimension', None)) for x in fn.args if not isinstance(x, str)]}"})
+            rv = fn.retvar
+            if isinstance(rv, str) or rv.vartype != "character" or "*(8)" not in squash((rv.dimension or "") + str(rv.strlen or "")):
+                out.append({"k": None, "tag": "starlen", "bad": f"result declared character res*(8): FORD reports {getattr(rv, 'vartype', rv)!r} {getattr(rv, 'dimension', None)!r}"})
+            ban = byname.get("banner")
+            if ban is None or "*(12)" not in squash((ban.dimension or "") + str(ban.strlen or "")):
+                out.append({"k": None, "tag": "starlen", "bad": f"module variable declared character :: banner*(12): FORD reports names {sorted(n for n in byname if n.startswith('ban'))}"})
+            soup = BeautifulSoup(open(os.path.join(d, "doc", fn.get_url()), "rb").read(), "html.parser")
+            ptxt = squash(soup.get_text(" "))
+            for frag in ("line*(*)", "tag*(3)", "*(8)"):
+                if squash(frag) not in ptxt:
+                    out.append({"k": None, "tag": "starlen", "bad": f"page {fn.get_url()} does not show {frag!r} as declared"})
         # expressions with relational operators
         for name, want, what in (("rel1", "merge(2,3,1<2)", "initial expression"), ("rel2", "dimension(merge(2,3,1<2))", "dimension attribute"),
                                  ("rel3", "(merge(2,3,1<2))", "dimension on the entity"), ("rel4", "len=count([1<2])", "length expression"),
@@ -194,7 +257,7 @@ def run(tier, seed, ck: Check):
     jobs += [{"cases": [c for c in cases if "Ab" in c[1]][:40], "lower": True}]
     res = pool.pmap(evaluate, jobs, chunksize=1)
     bykey = {c[0]: c for c in cases}
-    relop_seen = False
+    seen_fixed = set()
     for job, rs in zip(jobs, res):
         for c in job["cases"]:
             ck.count()
@@ -202,10 +265,10 @@ def run(tier, seed, ck: Check):
                 ck.nontrivial_case(json.dumps(c))
         for p in rs:
             c = bykey.get(p["k"])
-            if p.get("tag") == "relop":
-                if relop_seen:
+            if p.get("tag") in ("relop", "starlen"):
+                if (p["tag"], p["bad"][:40]) in seen_fixed:
                     continue
-                relop_seen = True
+                seen_fixed.add((p["tag"], p["bad"][:40]))
             ck.violation("declaration-text", {"content": c[1] if c else None, "quote": c[2] if c else None}, detail=p["bad"])
     ck.coverage["traces_validated_against_impl"] = 0
     ck.sample({"literal_contents": cs[:20], "positions": ["initial value", "second entity", "array constructor", "component default", "bind name"]})
